@@ -152,7 +152,9 @@ def run(module, cfg, *, spec_dir=SPEC, workers=16, simulate=None, depth=None,
             res.rc != 0 and not (res.violated or res.deadlock)
             and 'is violated' not in out and 'Assumption' not in out
             and 'Postcondition' not in out.replace('POSTCONDITION', 'Postcondition')):
-        tail = '\n'.join(out.splitlines()[-40:])
+        lines = [l for l in out.splitlines() if not l.startswith('"')]
+        firsterr = next((i for i, l in enumerate(lines) if l.startswith('Error')), len(lines))
+        tail = '\n'.join(lines[firsterr:firsterr + 12] + ['...'] + lines[-25:])
         raise MachineryFailure(f'TLC failed rc={res.rc} on {module}/{cfg}:\n{tail}')
     if not keep_stdout:
         res.stdout = ''
